@@ -1,6 +1,8 @@
 /-
 C02 for GeometryCollection: histories over {Push(g₁,…,gₖ) (variadic), SetLayout, Layout,
-NumGeoms, Geom(i), Geoms}.  Members are opaque values carrying a layout.  `Coll.model` follows
+NumGeoms, Geom(i), Geoms}, interleaved with the caller growing a nested member it still holds
+(`grow`: members are shared, not copied, so the member's layout as the collection sees it through
+`Layout()` changes).  Members are opaque values carrying a layout.  `Coll.model` follows
 geometrycollection.go (the check loop, then one append; CheckLayout's loop and its Got/Want
 order; Layout()'s promotion fold); `Coll.spec` is the list-of-parts reading of the property:
 a Push either appends all its arguments in order or — when the collection has a fixed layout and
@@ -27,7 +29,14 @@ inductive Op (π : Type) where
   | setLayout (l : Layout)
   | layout | num | geoms
   | geom (i : Nat)
+  /-- not a call on the collection: the caller, who still holds the i-th member (a nested
+  collection), pushes a part of layout `l` into it — the member's own layout becomes the cover -/
+  | grow (i : Nat) (l : Layout)
   deriving Repr
+
+def Op.isGrow {π : Type} : Op π → Bool
+  | .grow .. => true
+  | _ => false
 
 inductive Ob (π : Type) where
   | res (r : Outcome Unit)
@@ -70,6 +79,12 @@ def promote (mx l : Layout) : Layout :=
   if l = 2 then (if mx = 3 then 4 else if l > mx then l else mx)
   else if l = 3 then (if mx = 2 then 4 else if l > mx then l else mx)
   else if l > mx then l else mx
+
+/-- What the caller's push into the i-th member does to the collection's view of it. -/
+def growAt : List (Member π) → Nat → Layout → List (Member π)
+  | [], _, _ => []
+  | m :: ms, 0, l => { m with layout := promote m.layout l } :: ms
+  | m :: ms, i + 1, l => m :: growAt ms i l
 
 def modelLayout (s : State π) : Layout :=
   if s.fixed ≠ 0 then s.fixed else s.geoms.foldl (fun mx g => promote mx g.layout) 0
@@ -126,6 +141,7 @@ def step (m : Machine π) (s : State π) : Op π → State π × Ob π
   | .num => (s, .num s.geoms.length)
   | .geoms => (s, .geoms s.geoms)
   | .geom i => (s, .geom (m.geom s i))
+  | .grow i l => ({ s with geoms := growAt s.geoms i l }, .res (.ok ()))
 
 def runFrom (m : Machine π) (s : State π) : List (Op π) → List (Ob π) × State π
   | [] => ([], s)
